@@ -78,6 +78,11 @@ class PackageLoader(BaseLoader):
 
         raise TemplateNotFoundError(template_name)
 
+    def _read(self, source_path: Traversable) -> str:
+        # Keep line endings as they are in the file, like `from_string` does.
+        with source_path.open(encoding=self.encoding, newline="") as fd:
+            return fd.read()
+
     def get_source(
         self,
         env: Environment,  # noqa: ARG002
@@ -89,7 +94,7 @@ class PackageLoader(BaseLoader):
         """Get source information for a template."""
         source_path = self._resolve_path(template_name)
         return TemplateSource(
-            source=source_path.read_text(self.encoding),
+            source=self._read(source_path),
             name=str(source_path),
             uptodate=None,
         )
@@ -111,11 +116,7 @@ class PackageLoader(BaseLoader):
             template_name,
         )
 
-        source_text = await loop.run_in_executor(
-            None,
-            source_path.read_text,
-            self.encoding,
-        )
+        source_text = await loop.run_in_executor(None, self._read, source_path)
 
         return TemplateSource(
             source=source_text,
